@@ -54,20 +54,21 @@ def isPseudoName (n : Bytes) : Bool :=
   | c :: _ => c == 58
   | [] => false
 
+/-- does the emit callback set `invalid` for this field: invalid value, pseudo-header after a
+regular field, or a regular name that is not a valid lower-case wire name. -/
+def emitBad (s : St) (name value : Bytes) : Bool :=
+  s.invalid || !validValue value ||
+    (if isPseudoName name then s.sawRegular else !validWireName name)
+
 /-- the emit callback installed by `readMetaFrame` (called only while emitting is enabled). -/
 def emit (s : St) (name value : Bytes) : St :=
-  let inv1 := s.invalid || !validValue value
-  let pseudo := isPseudoName name
-  let inv2 := if pseudo then inv1 || s.sawRegular else inv1 || !validWireName name
-  let saw := s.sawRegular || !pseudo
-  if inv2 then { s with invalid := true, sawRegular := saw, emitEnabled := false }
+  let saw := s.sawRegular || !isPseudoName name
+  if emitBad s name value then { s with invalid := true, sawRegular := saw, emitEnabled := false }
+  else if name.length + value.length + 32 > s.remainSize then
+    { s with sawRegular := saw, emitEnabled := false, truncated := true, remainSize := 0 }
   else
-    let size := name.length + value.length + 32
-    if size > s.remainSize then
-      { s with sawRegular := saw, emitEnabled := false, truncated := true, remainSize := 0 }
-    else
-      { s with sawRegular := saw, remainSize := s.remainSize - size,
-               fields := s.fields ++ [(name, value)] }
+    { s with sawRegular := saw, remainSize := s.remainSize - (name.length + value.length + 32),
+             fields := s.fields ++ [(name, value)] }
 
 /-- `hdec.Write(frag)`: `none` = the decoder returned an error. -/
 def writeFrag : St → List Event → Option St
